@@ -325,6 +325,20 @@ def values_equal(ex, a, b):
         if ca is not cb:
             return False
         return mk_bool(ta == tb)
+    from .values import SymOpt
+    if isinstance(a, SymOpt) or isinstance(b, SymOpt):
+        def enc(x):
+            if isinstance(x, SymOpt):
+                return x.t
+            if x is None:
+                return z3.IntVal(-1)
+            if is_intlike(x):
+                return lift_int(x)
+            return None
+        ta, tb = enc(a), enc(b)
+        if ta is None or tb is None:
+            return False
+        return mk_bool(ta == tb)
     if a is None or b is None:
         if a is None and b is None:
             return True
@@ -390,6 +404,11 @@ def values_equal(ex, a, b):
 
 
 def order(ex, op, a, b):
+    from .values import SymOpt
+    if isinstance(a, SymOpt):     # spec mode only: guarded by `is None` tests
+        a = Sym(a.t, INT)
+    if isinstance(b, SymOpt):
+        b = Sym(b.t, INT)
     if is_real(a) or is_real(b):
         x, y = lift_real(a), lift_real(b)
     elif is_intlike(a) and is_intlike(b):
